@@ -31,6 +31,8 @@ CORPUS_MUST_RAISE = ['Foo', 'U:99999', 'UNIMOD:xyz', 'M:notaname', 'X:99999', 'R
                      'Formula:xH0', 'Glycan:xHex', 'Glycan:Hex Hex',
                      # a second colon field
                      'Formula:C2:H2', 'Glycan:Hex:2', 'Glycan:Hex:Foo', 'Obs:1:5', 'Obs:+1:x', 'U:+1:5', 'U:35:x',
+                     # an isotope bracket holding more than one element (was read up to the first count: D28)
+                     'Formula:[13C2H3]', 'Formula:[13C2 ]', 'Formula:C2[13C1H]', 'Formula:[2H2O]',
                      # an empty value / an empty alternative beside an unresolvable one
                      '', 'Foo|', '|Foo', '|', 'Foo||Bar']
 # macro tokens: whole notation elements, so that short sequences reach well-formed groups followed by one odd element
